@@ -126,7 +126,7 @@ func c21GenParts(h *H) [][]byte {
 
 func streamC21(h *H) {
 	repo, _ := vNewRepo()
-	nSnap := h.N(14, 500)
+	nSnap := h.N(20, 320)
 	perSnap := 12
 	if h.Thorough() {
 		perSnap = 40
